@@ -10,10 +10,12 @@ import threading
 import time
 
 from .. import env, gen, tree as T
-from ..common import F, G, P, flags_of
+from ..common import F, G, P, flags_of, pathlib_mask
 from wcmatch import pathlib as WP, wcmatch as WM
 
 LINE_PROBE = False    # sys.monitoring is used by the yield injector of this check
+
+PATHLIB_MASK = pathlib_mask()
 
 SPEC = {
     'rule': ('a pool of (function, pattern, flags, names) calls is built to collide in the cache key space: more than 600 distinct '
@@ -126,7 +128,7 @@ def eval_call(c, root):
             r = os.fsencode(root) if b else root
             return sorted(dec(G.glob(pat, flags=flags, root_dir=r)))
         if api == 'pathlib.match':
-            return [bool(WP.PurePosixPath(n).match(c['pat'], flags=flags & WP.FLAG_MASK)) for n in NAMES if n]
+            return [bool(WP.PurePosixPath(n).match(c['pat'], flags=flags & PATHLIB_MASK)) for n in NAMES if n]
         if api == 'wcmatch':
             r = os.fsencode(root) if b else root
             return sorted(os.path.relpath(os.fsdecode(x), root) for x in WM.WcMatch(r, pat, flags=WM.RECURSIVE | WM.HIDDEN | WM.EXTMATCH).match())
